@@ -193,11 +193,11 @@ func (d *dirkBin) run(base string, args ...string) (int, string) {
 
 // rawStore opens the rules store of a base dir, applies fn and closes it.
 func withRules(ctx context.Context, base string, fn func(r *standardrules.Service) error) error {
-	r, err := standardrules.New(ctx, standardrules.WithStoragePath(filepath.Join(base, "storage")))
+	r, err := newRules(ctx, standardrules.WithStoragePath(filepath.Join(base, "storage")))
 	if err != nil {
 		return err
 	}
-	defer r.Close(ctx)
+	defer closeRules(ctx, r)
 	return fn(r)
 }
 
